@@ -422,6 +422,7 @@ def c15_history(col, rng, hidx, jobref=None):
     hist = []
     rp = {"kind": "rerun_job", "job": dict(jobref or {}, n_histories=hidx + 1), "source": S.render(sp)}
     nonce = [0]
+    mc_cfg = [d.max_concurrency]  # what the user configured last: executions must not change it
 
     def fresh_args(partial=False):
         nonce[0] += 1
@@ -453,6 +454,9 @@ def c15_history(col, rng, hidx, jobref=None):
         if set(ent) != exp or any(c != 1 for c in ent.values()):
             col.violation(pid, "call_executed_set_depends_on_earlier_history", dict(
                 executed=sorted(ent.items()), expected=sorted(exp), history=S.jsonable(hist), source=S.render(sp)), rp2)
+        if d.max_concurrency != mc_cfg[0]:
+            col.violation(pid, "dag_max_concurrency_changed_by_an_earlier_execution", dict(
+                configured=mc_cfg[0], now=d.max_concurrency, history=S.jsonable(hist), source=S.render(sp)), rp2)
         if set(d.results.keys()) != keys0:
             col.violation(pid, "dag_level_results_gained_or_lost_keys", dict(
                 gained=sorted(set(d.results.keys()) - keys0)[:5], lost=sorted(keys0 - set(d.results.keys()))[:5], history=S.jsonable(hist)), rp2)
@@ -561,6 +565,7 @@ def c15_history(col, rng, hidx, jobref=None):
             try:
                 d.config_from_dict(conf)
                 hist.append(("config_from_dict", conf))
+                mc_cfg[0] = conf["max_concurrency"]
             except ValueError as e:
                 hist.append(("config_from_dict", "ValueError %s" % str(e)[:40]))
         elif op == "fail_node":
@@ -624,6 +629,9 @@ def c18_case(col, rng, cidx, tmpdir, jobref=None):
 
     sp = gen_shape(rng, nmin=3, nmax=7, flags=False, reuse=True, mc_max=3)
     sp["is_async"] = rng.random() < 0.3
+    dflt18 = rng.random() < 0.3
+    if dflt18:
+        sp["defaults"] = {"x": "default-of-x"}  # the DAG input has a default: a restart may be called without it
     g = S.site_graph(sp)
     # some setup nodes (ancestor closed, no DAG argument): their results are part of the cache file too
     setup18 = set()
@@ -742,10 +750,16 @@ def c18_case(col, rng, cidx, tmpdir, jobref=None):
         # from_cache and cache_in together: the restart re-writes a cache file, from which a second restart must work too
         recache = os.path.join(tmpdir, "c%d_b.pkl" % cidx)
         kw2["cache_in"] = recache
+    args2 = args
+    if dflt18 and any(str(k).endswith(">!>x") for k in cached) and rng.random() < 0.7:
+        # the file holds the value the input had in the caching run: the restart, called WITHOUT the (defaulted) argument,
+        # continues that run - it returns the same value and hands the cached input to whatever still has to run
+        args2 = []
+        col.counters["c18_restarts_omitting_a_defaulted_cached_input"] += 1
     B.reset_log()
     probes.reset_counts()
     pre_dd = dict(inst_setup.get(id(dd), {}))
-    r2 = probes.run_op("restart_run", lambda: op_exec(dd, kw2, args))
+    r2 = probes.run_op("restart_run", lambda: op_exec(dd, kw2, args2))
     log = B.snapshot()
     ent, _v = observed(log)
     rec(dd, log)
